@@ -3883,7 +3883,7 @@ class FormatterGroup:
         for group, formatter in cls.base_groups.items():
             for _index, fmt_match in enumerate(
                 re.finditer(
-                    rf"(?P<found>{{{group}:?(?P<format>[^{{}}]+)?}})",
+                    rf"(?P<found>{{{group}(?!\w):?(?P<format>[^{{}}]+)?}})",
                     fmt,
                 ),
                 start=0,
